@@ -47,5 +47,10 @@ def schmidt (amps : Array (Cx α)) : Outcome α :=
     let kinv := trM2 m dim
     .ok (normSq * normSq / kinv)
 
+/-- `JointSpectrum::schmidt_number(range)` : `schmidt_number(self.jsa_range(range))` with the
+amplitude function and the enumerated grid points as parameters -/
+def schmidtSetup (J : α → α → Cx α) (points : List (α × α)) : Outcome α :=
+  schmidt ((points.map fun p => J p.1 p.2).toArray)
+
 end
 end Spdc.Schmidt
